@@ -99,8 +99,8 @@ type fmtChoice struct {
 	wordlen int // sum of the letters' sizes; 0 = no letters
 }
 
-var goodFormats = []fmtChoice{{"<h", 2}, {">h", 2}, {"h", 2}, {"<i", 4}, {">i", 4}, {"!l", 4}, {"<q", 8}, {">q", 8}, {" <h ", 2}}
-var oddFormats = []fmtChoice{{"b", 1}, {"B", 1}, {"H", 2}, {">I", 4}, {"Q", 8}, {"x", 1}, {"L", 4},
+var goodFormats = []fmtChoice{{"<h", 2}, {">h", 2}, {"h", 2}, {"<i", 4}, {">i", 4}, {"!l", 4}, {"<l", 4}, {"l", 4}, {"<q", 8}, {">q", 8}, {"!q", 8}, {" <h ", 2}}
+var oddFormats = []fmtChoice{{"b", 1}, {"B", 1}, {"H", 2}, {">I", 4}, {"Q", 8}, {"x", 1}, {"L", 4}, {"<L", 4}, {">H", 2}, {"<B", 1},
 	{"<hh", 4}, {">IIQ", 16}, {"xh", 3}, {"<hi", 6}, {"bbbb", 4}, {">ii", 8}, {"", 0}, {"<", 0}, {"  >", 0}}
 var badFormats = []string{"<z", "h\x80", "\xc3\xa9", "<h?", "hhhhhZ", "\xff"}
 
@@ -217,7 +217,7 @@ func structured(r *lib.Rng, big bool) (dg []byte, bounds []int) {
 	if r.Chance(1, 5) {
 		tlvs = append(tlvs, tlvTag(r.Pick([]int{0, 0, 0, 1, 0x100}), uint32(r.U64())))
 	}
-	if r.Chance(1, 4) {
+	if r.Chance(1, 3) {
 		switch r.Intn(4) {
 		case 0:
 			tlvs = append(tlvs, tlvLabel("value,active,t", 2))
@@ -555,6 +555,9 @@ func randomBuild(r *lib.Rng, big bool) Item {
 			n = dims[0] * r.Range(0, 4)
 		}
 		if big {
+			if w < 2 {
+				w = 2
+			}
 			// around the 8192-byte limit: header = 24 (+16) + 8 + 8*(1+ndim/4)
 			n = (8192-40)/w + r.Range(-3, 2)
 		}
@@ -687,7 +690,7 @@ func corpus() [][]Item {
 
 func gen(seed uint64, tier string) []interface{} {
 	r := lib.NewRng(seed)
-	nStructured, nMutated, nRandom, nBuild, nBig := 150, 90, 60, 90, 4
+	nStructured, nMutated, nRandom, nBuild, nBig := 200, 100, 60, 110, 4
 	if tier == "thorough" {
 		nStructured, nMutated, nRandom, nBuild, nBig = 2500, 1500, 1000, 1500, 60
 	}
